@@ -8,7 +8,7 @@ CLAIM = {
     "text": ("Fidelity of the drawn artists is library / value dependent and not decided. Decided are structural conditions without which the statement fails for every input on some option path: (R1) every numpy / matplotlib / xarray reference in "
              "plot/core.py and plot/plotter_matplotlib.py resolves against the installed distributions and every attribute name used on an untyped receiver is defined somewhere (closed world); (R2) every Figure.colorbar call for the free-standing "
              "ScalarMappable definitely passes ax or cax, for every grid / relative-position valuation; (R3) the x / y / error / colour names reach the matching slot of plot / errorbar / scatter / hist / pcolormesh and the heat-map array is transposed to (y, x) "
-             "by dimension name on every path; (R4) each series is masked by exactly isfinite(x) & isfinite(y) applied to all its components, one series per z value, and in each draw loop the label iterator advances once and one artist is created per series on "
+             "by dimension name on every path; (R4) each series is masked by exactly isfinite(x) & isfinite(y) applied to all its components, exactly one series is yielded per z value on every path through the generator's loop body (no skip, no repeat), and in each draw loop the label iterator advances once and one artist is created per series on "
              "every path; (R5) grid panels: rows outer / columns inner consistently in the data split, GridSpec[i, j] and titles; (R6) no store, augmented assignment or in-place method on a value that may alias the caller's dataset; (R7) line colours are "
              "cmap(norm(v)) with v and the norm's limits from the same quantity and absent limits are tested with `is None`."),
     "note": "Trusted base: the matplotlib slot table (plot(x, y), errorbar(x, y, yerr=, xerr=), scatter(x, y), hist(x), pcolormesh(X, Y, C[y, x]), Figure.colorbar(mappable, ax=|cax=)); view / fresh-array producer tables in xyzsa/props/plots.py.",
